@@ -48,6 +48,23 @@ func lockMonitor(res *sim.Result) []finding {
 	held := map[string]map[string]*hold{} // req -> id -> outstanding locks
 	siteOf := map[int]string{}
 	ff := faultFeature(res)
+	// what a request did first under a lock tells which lock it is: the
+	// Database call that follows the Lock in the same request
+	under := map[int]string{}
+	lastLock := map[string]int{}
+	for _, e := range res.Log {
+		if e.Class() != "db" {
+			continue
+		}
+		if e.Kind == "db.Lock" && !e.Injected {
+			lastLock[e.Req] = e.Seq
+			continue
+		}
+		if seq, ok := lastLock[e.Req]; ok {
+			under[seq] = e.Kind
+			delete(lastLock, e.Req)
+		}
+	}
 	for _, e := range res.Log {
 		if e.Class() != "db" {
 			continue
@@ -66,7 +83,7 @@ func lockMonitor(res *sim.Result) []finding {
 			siteOf[e.Seq] = e.Site
 			if cur, dup := h[id]; dup && len(cur.seqs) > 0 {
 				first := cur.seqs[0]
-				out = append(out, finding{"C09.reentrant-lock", e.Site, "id already held since a Lock in " + siteOf[first],
+				out = append(out, finding{"C09.reentrant-lock", e.Site, "id already held since a Lock in " + siteOf[first] + " (taken for " + under[first] + ")",
 					fmt.Sprintf("Lock(%s) at event %d while the same request still holds it since event %d", id, e.Seq, first), reqIndex(e.Req)})
 				cur.seqs = append(cur.seqs, e.Seq)
 				continue
